@@ -328,22 +328,34 @@ CLAIMED = {
         ref='DESIGN.md §7 C16'),
     'C07': dict(
         technique='Lean 4 proof (representation invariant preserved by every push, lifted over all histories by induction; '
-                  'every accessor characterised under the invariant) over a hand-transcribed model of the four storages + '
-                  'differential correspondence run in two harness builds (with and without the `unsafe` feature; thorough tier: the unsafe build additionally at opt-level 3)',
+                  'every accessor characterised under the invariant; grind/omega over decision trees) about the definitions '
+                  'regenerated on every run from window_type/{storage_safe,storage_unsafe}/*.rs, storage.rs and mod.rs by the '
+                  'fail-closed translator tools/rs2lean_window.py (statement parser + symbolic execution of every storage '
+                  'function, trait default methods instantiated per storage, SlidingWindow dispatch checked) + differential '
+                  'correspondence run of the generated definitions in two harness builds (with and without the `unsafe` '
+                  'feature; thorough tier: the unsafe build additionally at opt-level 3)',
         text='Theorem c07_window_is_last_n: for the array, unsafe-array, unsafe-vector storages and for the vector storage after '
-             'fixes/F1-window-vec.diff, every 0 < size < capacity (vector: multiple >= 2), every default value and every push '
+             'fixes/F1-window-vec.diff (applied by the translator in memory), every 0 < size < capacity (vector: multiple >= 2), '
+             'every element size, every default value and every push '
              'history of any length, construct-and-push never panics and never violates the precondition of an unchecked '
              'operation, and size/empty/filled/first/last/slice/vec/arr answer exactly the spec (last `size` values in push '
-             'order, filled iff size <= n, empty iff n = 0, Err while not filled); c07_backends_agree / c07_backends_same_state. '
+             'order, filled iff size <= n, empty iff n = 0, Err while not filled); c07_backends_agree / c07_backends_same_state / '
+             'c07_element_size_irrelevant. Props/C07Gen.lean: gen_push_* / gen_<accessor>: what each generated function returns on '
+             'a state that represents a history. '
              'The safe vector storage as it is in /repo violates the property (F1, open known finding: the repair is blocked by '
-             'a repository test that pins the defective output): c07_vec_fails (witness, replayed on the real code on every run) '
-             'and c07_vec_partial (histories up to the capacity).',
-        note='Trusted: Lean kernel (propext, Classical.choice, Quot.sound); the hand-written model lean/DcVerif/Model/Window.lean '
-             '(tied to /repo only by the correspondence run: sizes 1..9, every capacity N+1..3N, multiples 2..4, u8/u32/u64, '
-             'every observable after every push, up to 40*cap pushes); copy_within/ptr::copy = memmove and the 16-byte chunked '
-             'copy of the unsafe array = memmove; compiled behaviour of the unsafe blocks is compared, their abstract-machine '
-             'preconditions are proved for the model only. F10 (copy_nonoverlapping on overlapping ranges in '
-             'unsafe_storage_array.rs, aborts under debug assertions) is repaired by fixes/F10-window-unsafe-array.diff.',
+             'a repository test that pins the defective output): c07_vec_fails (witness on the generated vecPush, replayed on '
+             'the real code on every run) and c07_vec_partial (histories up to the capacity).',
+        note='Trusted: Lean kernel (propext, Classical.choice, Quot.sound); tools/rs2lean_window.py (grammar and guard table in '
+             'its docstring: checked `-`/indexing/copy_within/assert -> panic, unchecked_sub/get_unchecked/pointer ranges/'
+             'copy_nonoverlapping overlap -> ub; the 16-byte chunked copy of the unsafe array is accepted as one memmove only '
+             'after its parsed byte offsets and lengths are shown to tile count*size_of::<T>() bytes) and '
+             'lean/DcVerif/Model/WindowPrim.lean (outcomes, state record, memmove = what copy_within/ptr::copy do); usize '
+             'arithmetic without overflow; compiled behaviour of the unsafe blocks is compared, their abstract-machine '
+             'preconditions are proved for the generated model only. The generated definitions are cross-checked against the '
+             'real code by the correspondence run (sizes 1..9, every capacity N+1..3N, multiples 2..4, u8/u32/u64/12-/24-byte '
+             'elements, every observable after every push, up to 40*cap pushes, malformed configurations for the guards). F10 '
+             '(copy_nonoverlapping on overlapping ranges in unsafe_storage_array.rs, aborts under debug assertions) is repaired '
+             'by fixes/F10-window-unsafe-array.diff.',
         ref='DESIGN.md §7 C07'),
     'C19': dict(
         technique='Lean 4 proof (refinement invariant by induction over the call history) over definitions regenerated '
